@@ -57,10 +57,11 @@ impl Pool {
     /// Sends every item to some worker; results come back in item order. A worker that dies
     /// while serving an item yields Err("worker died") for that item and is replaced.
     pub fn map(&self, items: &[Value]) -> Vec<Result<Value, String>> {
-        self.map_limited(items, usize::MAX)
+        self.map_limited(items, usize::MAX, None)
     }
     /// like `map`, with at most `max_parallel` workers busy at a time (memory-hungry items)
-    pub fn map_limited(&self, items: &[Value], max_parallel: usize) -> Vec<Result<Value, String>> {
+    /// and no new item started after `deadline` (the items left over yield Err("cap"))
+    pub fn map_limited(&self, items: &[Value], max_parallel: usize, deadline: Option<std::time::Instant>) -> Vec<Result<Value, String>> {
         let next = std::sync::atomic::AtomicUsize::new(0);
         let out: Mutex<Vec<Option<Result<Value, String>>>> = Mutex::new((0..items.len()).map(|_| None).collect());
         std::thread::scope(|s| {
@@ -71,6 +72,12 @@ impl Pool {
                         let i = next.fetch_add(1, std::sync::atomic::Ordering::SeqCst);
                         if i >= items.len() {
                             break;
+                        }
+                        if let Some(dl) = deadline {
+                            if std::time::Instant::now() > dl {
+                                out.lock().unwrap()[i] = Some(Err("cap".into()));
+                                continue;
+                            }
                         }
                         if slot.is_none() {
                             match Worker::spawn(&self.mode) {
